@@ -94,11 +94,14 @@ def onBoundary (poly : Poly) (v : Pt) : Bool := (polyEdges poly).any fun e => on
       `segmentIntersect` are 0 there, so neither adjacent edge reports a crossing);
     touch-touch: both segment ends lie on the boundary of the crossed shape (each end is an "endpoint
       touch", no proper crossing anywhere);
+    touch-one: exactly one segment end lies on the boundary of the crossed shape (a vertex of a touching
+      neighbour), the segment crosses one edge properly;
     other: anything else. -/
 def hitClass (shapes : List Poly) (i : Nat) (p q : Pt) : String :=
   let poly := shapes.getD i []
   if cornersInOpenSeg poly p q ≥ 1 then "class=collinear-vertex"
   else if onBoundary poly p && onBoundary poly q then "class=touch-touch"
+  else if onBoundary poly p || onBoundary poly q then "class=touch-one"
   else "class=other"
 
 /-- axis-aligned bounding box (xmin, ymin, xmax, ymax) -/
@@ -192,6 +195,7 @@ def run1 (c : Case) : CaseResult := Id.run do
   let buffer : Rat := match (c.get "param").find? (fun l => l[0]! == "shapeBufferDistance") with
     | some l => (num? (l[1]?.getD "0")).getD 0
     | none => 0
+  let hyper := (c.get1 "hjunction").isSome
   let lee := cfgFlag c "lee"
   let lk := if lee then "lee" else "naive"
   let allowPoly := cfgFlag c "poly"
@@ -204,7 +208,9 @@ def run1 (c : Case) : CaseResult := Id.run do
     let excl := containing shapes cn.src ++ containing shapes cn.dst
     if !excl.isEmpty then stats := bumpStats stats "conn.endpointInsideShape" 1
     let ck := if cn.orth then "orth" else "poly"
-    for (kind, table) in [("route", routes), ("display", displays)] do
+    -- hyperedge class: route() is the raw route from before hyperedge improvement (junction at its old
+    -- position); the property speaks about the displayed route, so only displayRoute() is judged there
+    for (kind, table) in (if hyper then [("display", displays)] else [("route", routes), ("display", displays)]) do
       let some (_, rt) := table.find? (·.1 == cn.id)
         | fails := ⟨0, .specfail s!"conn {cn.id}: no {kind} dumped"⟩ :: fails
       if rt.length < 2 then
@@ -237,7 +243,11 @@ def run1 (c : Case) : CaseResult := Id.run do
           | some path =>
             -- certify the exhibited path with the proven checker (exact, tolerance 0)
             if routeValid rpolys exclR cn.src cn.dst path 0 then
-              fails := ⟨classPrio cls, .specfail s!"interior-hit conn {cn.id} {kind} ({ck},{lk}): leg {ptStr a}-{ptStr b} enters shape {i+1} {cls}; an obstacle-free path with {path.length} points exists"⟩ :: fails
+              -- fingerprint of the "endpoint without any visibility edge" fallback (straight 2-point route)
+              let deg (vn : Nat) : Nat := (vis.filter fun e => (e.o1 == cn.id && e.v1 == vn && e.c1) || (e.o2 == cn.id && e.v2 == vn && e.c2)).length
+              let noVis := !cn.orth && allowPoly && rt.length == 2 && (deg 1 == 0 || deg 2 == 0)
+              let extra := if noVis then " no-visibility-endpoint" else ""
+              fails := ⟨classPrio cls, .specfail s!"interior-hit conn {cn.id} {kind} ({ck},{lk}): leg {ptStr a}-{ptStr b} enters shape {i+1} {cls}{extra}; route has {rt.length} points; an obstacle-free path with {path.length} points exists"⟩ :: fails
             else
               fails := ⟨0, .diverge "internal: exhibited path failed certification"⟩ :: fails
           | none => stats := bumpStats stats "noObstacleFreePath" 1
